@@ -21,7 +21,7 @@ type C16Case struct {
 	Fams   []bt.FamDef `json:"fams"`
 	Now    int64       `json:"now"` // clock of the pass (micros)
 	Rows   []C05Row    `json:"rows"`
-	Mode   string      `json:"mode"` // force | fresh (non-forced right after activity) | aged (non-forced, activity aged 6 min)
+	Mode   string      `json:"mode"` // force | fresh (non-forced right after activity) | aged (non-forced, activity aged 6 min) | aged-read / aged-write (aged, then one read / one write, then non-forced)
 	// Via: if set, the table is created with these rules and then brought to Fams by ModifyColumnFamilies updates
 	// (a rule replaced, removed or added later must be the one the pass applies)
 	Via []bt.FamDef `json:"via,omitempty"`
@@ -73,7 +73,7 @@ func gcCutoffs(g *bt.GC, now int64, into *[]int64) {
 func genC16() *rapid.Generator[C16Case] {
 	return rapid.Custom(func(t *rapid.T) C16Case {
 		c := C16Case{Engine: rapid.SampledFrom(bt.Engines).Draw(t, "engine"), Now: c16Now + rapid.SampledFrom([]int64{0, 999, 1000, 500}).Draw(t, "nowoff"),
-			Mode: rapid.SampledFrom([]string{"force", "force", "force", "force", "fresh", "aged"}).Draw(t, "mode")}
+			Mode: rapid.SampledFrom([]string{"force", "force", "force", "force", "fresh", "aged", "aged-read", "aged-write"}).Draw(t, "mode")}
 		var cuts []int64
 		for _, f := range []string{"f", "g", "h"} {
 			r := genGCRule(2).Draw(t, "rule-"+f)
@@ -176,6 +176,21 @@ func runC16(c C16Case, ev *vt.Ev) *vt.Failure {
 		collect = false
 	case "aged":
 		s.Exec(&bt.Op{K: "GC", AgeMin: 6})
+	case "aged-read", "aged-write":
+		// all activity aged by 6 minutes, then one client request of one kind: the table is in use again and a
+		// non-forced pass must leave it alone
+		bttest.VerifAgeActivity(s.S, 6*time.Minute)
+		for _, tb := range []string{"t", "norules"} {
+			op := &bt.Op{K: "ReadRows", Table: tb, Limit: 1}
+			if c.Mode == "aged-write" && len(c.Fams) > 0 {
+				op = &bt.Op{K: "MutateRow", Table: tb, Key: "zz-activity", Muts: []bt.Mut{{K: "set", Fam: c.Fams[0].Name, Qual: "act", TS: 1000, Val: "x"}}}
+			}
+			if mis := m.Step(op, s.Exec(op)); mis != "" {
+				return vt.Failf("C16", "request on the aged table %s: %s", tb, mis)
+			}
+		}
+		s.Exec(&bt.Op{K: "GC"})
+		collect = false
 	case "loop":
 		// the server's own background loop (a pass every 15-60 s over tables without recent activity), not the
 		// guarded entry point: the tables are made to look idle, then the harness just waits for the next pass
@@ -245,7 +260,7 @@ func TestC16Loop(t *testing.T) {
 
 func TestC16(t *testing.T) {
 	vt.Prop[C16Case]{ID: "C16", Test: "TestC16",
-		Rule: "rapid-generated GC rule trees per family (none, max-versions, max-age with sub-second parts, nested unions, unsupported intersection / empty rule), 1-30 rows with cells placed at cut-off-1ms / cut-off / cut-off+1ms of every max-age leaf, drawn pass clock, 3 engines, plus an identical table without rules; a forced pass, a non-forced pass right after activity (must collect nothing) or after ageing the activity stamps by 6 min (must collect); oracle = GC evaluator, full scan + SampleRowKeys of both tables; non-trivial = the pass removed some but not all cells of a column, or the quiescence rule was exercised",
+		Rule: "rapid-generated GC rule trees per family (none, max-versions, max-age with sub-second parts, nested unions, unsupported intersection / empty rule), 1-30 rows with cells placed at cut-off-1ms / cut-off / cut-off+1ms of every max-age leaf, drawn pass clock, 3 engines, plus an identical table without rules; a forced pass, a non-forced pass right after activity (must collect nothing) or after ageing the activity stamps by 6 min (must collect), or after ageing them and then serving one read or one write (the table is in use again: must collect nothing); oracle = GC evaluator, full scan + SampleRowKeys of both tables; non-trivial = the pass removed some but not all cells of a column, or the quiescence rule was exercised",
 		Gen:  genC16(), Run: runC16}.Main(t)
 }
 
